@@ -6,7 +6,7 @@ from lib import *
 from gen_lp import *
 from solve_common import *
 
-LPTXT = "Maximize\n obj: 3 x + 2 y + 4 z\nSubject To\n c1: 3 x + 2 y + z <= 12\n c2: -1 <= 5 y + 3 z <= 10\n c3: x - y >= -2\nBounds\n x <= 5\n -1 <= y <= 4\n z free\nGeneral\n x\nEnd\n"
+LPTXT = "Maximize\n obj: 3 x + 2 y + 4 z\nSubject To\n c1: 3 x + 2 y + z <= 12\n c2: 5 y + 3 z <= 10\n c4: 5 y + 3 z >= -1\n c3: x - y >= -2\nBounds\n x <= 5\n -1 <= y <= 4\n z free\nInteger\n x\nEnd\n"
 MPSTXT = ("NAME t\nOBJSENSE\n MAX\nROWS\n N obj\n L c1\n G c2\n E c3\nCOLUMNS\n x obj 1 c1 1\n x c2 1\n y obj 2 c1 1\n y c3 1\n"
           "RHS\n rhs c1 4 c2 1\n rhs c3 2\nRANGES\n rng c1 3\nBOUNDS\n UP bnd x 3\n MI bnd y\nENDATA\n")
 
@@ -17,9 +17,12 @@ def leak_sites(err):
     for blk in re.split(r"\n(?=(?:Direct|Indirect) leak of)", err):
         if not blk.startswith(("Direct", "Indirect")):
             continue
-        m = re.search(r"in (\w+) (?:/\S*/)?qsopt_ex/(\w+\.c):(\d+)", blk)
+        fr = re.findall(r"in (\w+) (?:/\S*/)?qsopt_ex/(\w+\.c):(\d+)", blk)
+        # the allocation wrappers are not the site: the first frame above them is
+        fr2 = [f for f in fr if f[0] not in ("ILLutil_allocrus", "ILLutil_reallocrus", "ILLutil_reallocrus_scale", "ILLutil_reallocrus_count", "__EGlpNumAllocArray")]
+        m = (fr2 or fr or [None])[0]
         kind = blk.split()[0]
-        out.append((kind, m.group(1) if m else "?", m.group(2) if m else "?"))
+        out.append((kind, m[0] if m else "?", m[1] if m else "?"))
     return out
 
 
@@ -52,6 +55,39 @@ def main():
                     add("mu_%s_%d_%d" % (ty, k, len(rep)), "CASE " + "mu_%s_%d_%d" % (ty, k, len(rep)) + "\n%sREADPROB %s %s\nSOLVE EXACT D\nGETBASIS\n" % (mkfile(f, " ".join(t2)), f, ty), "token-mutation")
                     if not ck.thorough():
                         break
+        # 1b. the same files through the line reader + error memory interface (mpq_QSget_prob): every stored error owns two strings
+        k_ = 0
+        for (cid, scr) in list(cases):
+            k_ += 1
+            if "READPROB " in scr and (ck.thorough() or k_ % 2 == 0):
+                add(cid + "_m", scr.replace("CASE " + cid, "CASE " + cid + "_m").replace("READPROB ", "READPROBM "), kinds[cid] + "+error-memory")
+        # 1c. files that parse without error but are rejected (or repaired with warnings) when the raw problem is converted
+        SEM = {
+            "crossed.lp": "Minimize\n obj: x + z\nSubject To\n c1: x + z >= 1\nBounds\n 10 <= z <= 1\nEnd\n",
+            "nocons.lp": "Maximize\n obj: x\nSubject To\nEnd\n",
+            "novars.lp": "Minimize\n obj: 0 x\nSubject To\n c1: 0 x >= 1\nEnd\n",
+            "onlyobj.mps": "NAME t\nROWS\n N obj\nCOLUMNS\n x obj 1\nENDATA\n",
+            "nocols.mps": "NAME t\nROWS\n N obj\n L c1\nCOLUMNS\nRHS\n rhs c1 1\nENDATA\n",
+            "crossed.mps": "NAME t\nROWS\n N obj\n L c1\nCOLUMNS\n x obj 1 c1 1\nBOUNDS\n LO bnd x 5\n UP bnd x 1\nENDATA\n",
+            "sos_refrow.mps": "NAME t\nROWS\n N obj\n L c1\nCOLUMNS\n x obj 1 c1 1\n y obj 1 c1 2\nRHS\n rhs c1 4\nSOS\n S1 SOS s1 5\n x 1\n y 2\nENDATA\n",
+            "sos_badref.mps": "NAME t\nREFROW\n nosuch\nROWS\n N obj\n L c1\nCOLUMNS\n MARKER MARKER SOSORG\n x obj 1 c1 1\n y obj 1 c1 2\n MARKER MARKER SOSEND\nRHS\n rhs c1 4\nENDATA\n",
+            "sos_ref.mps": "NAME t\nREFROW\n c1\nROWS\n N obj\n L c1\nCOLUMNS\n S1 SOS1 MARKER SOSORG\n x obj 1 c1 1\n y obj 1 c1 2\n MARKER MARKER SOSEND\nRHS\n rhs c1 4\nENDATA\n",
+            "objname_row.mps": "NAME t\nOBJNAME\n c1\nROWS\n N obj\n L c1\n G c2\nCOLUMNS\n x obj 1 c1 1\n x c2 1\nRHS\n rhs c1 4 c2 1\nRANGES\n rng c1 2\nENDATA\n",
+            "range_on_n.mps": "NAME t\nROWS\n N obj\n L c1\nCOLUMNS\n x obj 1 c1 1\nRHS\n rhs c1 4\nRANGES\n rng obj 2\nENDATA\n",
+            "intmarker.mps": "NAME t\nROWS\n N obj\n L c1\nCOLUMNS\n MARKER MARKER INTORG\n x obj 1 c1 1\n MARKER MARKER INTEND\n y obj 1 c1 1\nRHS\n rhs c1 4\nBOUNDS\n UI bnd x 0\n BV bnd y\nENDATA\n",
+            "dup_rows.lp": "Minimize\n obj: x\nSubject To\n c1: x >= 1\n c1: x <= 4\nEnd\n",
+            "unknown_in_bounds.lp": "Minimize\n obj: x\nSubject To\n c1: x >= 1\nBounds\n q <= 3\nEnd\n",
+        }
+        for fn, txt in SEM.items():
+            ty = "MPS" if fn.endswith(".mps") else "LP"
+            for rd in ("READPROB", "READPROBM"):
+                cid = "sem_%s_%s" % (fn.replace(".", "_"), rd[-1])
+                add(cid, "CASE %s\n%s%s %s %s\nSOLVE EXACT P\nACCESS\nWRITEPROB o_%s LP\n" % (cid, mkfile(fn, txt), rd, fn, ty, fn), "semantic-reject")
+        # 1d. QSexact_verify (with and without the floating point pre-step) on the problem's own and on a given basis
+        for vi, pre in enumerate((0, 1, 1, 0)):
+            cid = "ver%d" % vi
+            add(cid, "CASE %s\n%sREADPROB v.lp LP\nSOLVE EXACT D\nVERIFY %d\nVERIFY %d %s\nSOLVE DUAL\nVERIFY %d\n" % (
+                cid, mkfile("v.lp", LPTXT), pre, pre, ("121 0011" if vi % 2 else "011 1101"), 1 - pre), "verify")
         # 2. every non-OPTIMAL outcome of the driver and rejected edits / basis loads
         lps = family_stream(ck.rng, 300 if ck.thorough() else 50)
         for li, lp in enumerate(lps):
